@@ -1,7 +1,7 @@
 import typing
 from ast import *
 
-from oneliner.namespaces import Namespace
+from oneliner.namespaces import Namespace, NamespaceFunction
 
 __all__ = [
     "expr_transf",
@@ -216,6 +216,8 @@ class ExpressionTransformer:
             return PendingLambda(node, self.nsp)
         elif isinstance(node, (ListComp, SetComp, DictComp, GeneratorExp)):
             return PendingComp(node, self.nsp)
+        elif isinstance(node, Call) and isinstance(self.nsp, NamespaceFunction):
+            return PendingExpr(self.nsp.get_explicit_super(node) or node)
         else:
             return PendingExpr(node)
 
